@@ -192,7 +192,8 @@ Proof. exact decide_no_panic_at. Qed.
 (* ... and those states are the ones in which the run of the root calls decide (Cdcl/NoPanicDecide.v):
    run_loop_dp is a twin of run_loop -- same control flow, the states evolve through the model's own encode,
    s_propagate, prop_learn and resolve -- that computes one bit: whether the None branch of a call of decide
-   (the unreachable!()) is taken anywhere in the run.  For the run of the root, which is the whole solve when
+   (the unreachable!()) or of the assignment of the candidate decide proposed (expect("bug: solvable was already
+   decided!") in resolve_dependencies) is taken anywhere in the run.  For the run of the root, which is the whole solve when
    the problem has no soft requirements, that bit is false: for every provider, problem, fuel, activity
    function and completion order of the encoder's futures *)
 From Resolvo Require Import Cdcl.NoPanicDecide.
